@@ -69,6 +69,9 @@ theorem C20_callbacks_unlocked :
 
 /-- entry points that are made of more than one critical section on a mutex, with the sections they consist of -/
 def multiSection : List (String × String × List String) := [
+  -- Shutdown: the state change under the lock; then, after closeWriteLoopCh is closed, a read-only section that tests
+  -- whether the peer acknowledged the SHUTDOWN (52b27be)
+  ("Association.Shutdown", "Association.lock", ["Association.Shutdown:sections:2"]),
   -- blocking-write gate: lock, test, (unlock, wait, lock, re-test)*, enqueue, unlock — the state test is repeated in
   -- every section and the enqueue happens in the last one
   ("Stream.Write", "Association.lock", ["Association.sendPayloadData:sections:2"]),
@@ -77,10 +80,13 @@ def multiSection : List (String × String × List String) := [
   ("Stream.Write", "Stream.lock", ["Stream.State:whole", "Stream.WriteSCTP:sections:1", "Stream.packetize:whole"]),
   ("Stream.WriteSCTP", "Stream.lock", ["Stream.State:whole", "Stream.WriteSCTP:sections:1", "Stream.packetize:whole"])]
 
+/-- `x` ends with `s` (on character lists: reducible by the kernel) -/
+def hasSuffix (x s : String) : Bool := (x.toList.drop (x.length - s.length)) == s.toList
+
 def isSingle (acq : List String) : Bool :=
   match acq with
   | [] => true           -- does not take the mutex at all (atomics only)
-  | [_] => true          -- exactly one critical section
+  | [x] => hasSuffix x ":whole" || hasSuffix x ":sections:1"   -- exactly one function with exactly one critical section
   | _ => false
 
 def rowOk (r : String × String × String × String × String × List String × List String) : Bool :=
